@@ -669,7 +669,13 @@ func RunPullProgram(p *Program) *Result {
 			if s.Pad {
 				hdr = map[string]string{"X-A": "1", "X-B": "two,three"}
 			}
-			w.Enq(s.Batch, s.Env.Payload, hdr)
+			for k, v := range s.Env.Headers {
+				if hdr == nil {
+					hdr = map[string]string{}
+				}
+				hdr[k] = v
+			}
+			w.Enq(s.Batch, s.Env.Payload, decodeOddHeaders(hdr))
 		case "pull":
 			if s.Batch >= 0 && s.Batch < len(sys.Ops) {
 				op := sys.Ops[s.Batch]
@@ -924,6 +930,9 @@ func GenPullProgram(t *rapid.T, authHeavy bool) *Program {
 		case k < 5:
 			p.Steps = append(p.Steps, Step{Op: "enq", Batch: rapid.IntRange(0, 2).Draw(t, "route"), Pad: rapid.Bool().Draw(t, "hdr"),
 				Env: &EnvSpec{Payload: rapid.SampledFrom(weirdPayloads).Draw(t, "payload")}})
+			if rapid.IntRange(0, 2).Draw(t, "oddhdr") == 0 {
+				p.Steps[len(p.Steps)-1].Env.Headers = map[string]string{"X-Odd": rapid.SampledFrom(oddHeaderValues[:oddHeaderValuesUTF8]).Draw(t, "oddval")}
+			}
 		case k < 16:
 			op := PullOp{Transport: "http", Route: rapid.IntRange(0, 2).Draw(t, "route")}
 			if rapid.IntRange(0, 9).Draw(t, "unknown_ep") == 0 {
